@@ -17,19 +17,20 @@ type loopCtx struct {
 }
 
 type Frame struct {
-	fi        *FuncInfo
-	info      *types.Info
-	act       int
-	keys      map[*types.Var]string
-	addrTaken map[*types.Var]bool
-	scope     map[string]string // name -> store key (most recent declaration), for spec expressions
-	returns   []*State
-	defers    []*ast.CallExpr
-	loops     []*loopCtx
-	loopOrd   int
-	loopIdx   map[token.Pos]int
-	nres      int
-	resVars   []*types.Var
+	fi         *FuncInfo
+	info       *types.Info
+	act        int
+	keys       map[*types.Var]string
+	addrTaken  map[*types.Var]bool
+	beforeLoop map[*LoopSpec]*State // state just before each loop (for before(e) in its invariants)
+	scope      map[string]string    // name -> store key (most recent declaration), for spec expressions
+	returns    []*State
+	defers     []*ast.CallExpr
+	loops      []*loopCtx
+	loopOrd    int
+	loopIdx    map[token.Pos]int
+	nres       int
+	resVars    []*types.Var
 }
 
 func (x *Exec) newFrame(fi *FuncInfo) *Frame {
@@ -825,7 +826,15 @@ func (x *Exec) loopSpec(fr *Frame, p token.Pos) (*LoopSpec, int) {
 }
 
 func (x *Exec) checkInvariants(fr *Frame, st *State, ls *LoopSpec, ord int, kind string, p token.Pos) {
+	if kind == "loop-entry" {
+		// before(e) in this loop's invariants: e in the state just before the loop
+		if fr.beforeLoop == nil {
+			fr.beforeLoop = map[*LoopSpec]*State{}
+		}
+		fr.beforeLoop[ls] = st.Clone()
+	}
 	c := x.ctx(fr, st)
+	c.loopSpec = ls
 	if kind == "loop-step" && len(ls.Invariants) > 0 && len(x.prefix) == 0 {
 		// cover canary: the end of the loop body must be reachable, or the step obligations say nothing
 		x.oblige(st, "vacuity", fmt.Sprintf("loop%d.body", ord), nil, False, p, "the loop body is reachable")
@@ -839,6 +848,7 @@ func (x *Exec) checkInvariants(fr *Frame, st *State, ls *LoopSpec, ord int, kind
 
 func (x *Exec) assumeInvariants(fr *Frame, st *State, ls *LoopSpec) {
 	c := x.ctx(fr, st)
+	c.loopSpec = ls
 	for _, inv := range ls.Invariants {
 		st.assume(c.specEval(inv.Expr, st, x.entryState(fr), x.entryVars(fr)))
 	}
@@ -1063,10 +1073,19 @@ func (x *Exec) rangeStmt(fr *Frame, s *ast.RangeStmt, st *State) []*State {
 		bvarSeq++
 		bk := BVar(fmt.Sprintf("k!exit%d", bvarSeq), ks)
 		stE.assume(Forall([]*Term{bk}, Implies(And(Select(rv.Has, bk), Select(hasNow, bk)), Select(vis, bk))))
+		// a range over a map that was not empty at the start runs its body at least once (the first
+		// iteration happens before the body can delete anything), unless it was left by break
+		bvarSeq++
+		bk2 := BVar(fmt.Sprintf("k!first%d", bvarSeq), ks)
+		w := Fresh("range.first", ks)
+		stE.assume(Forall([]*Term{bk2}, Implies(Select(rv.Has, bk2), And(Select(vis, w), Select(rv.Has, w)))))
 		return x.join(append(lc.breaks, stE))
 	case KScalar:
 		if rv.S.Sort == SInt { // range over integer
 			n := rv.S
+			if keyIdent != nil && keyIdent.Name != "_" {
+				bind(st, keyIdent, Scalar(IntLit(0), intT)) // the counter is 0 where the invariant is first checked
+			}
 			x.checkInvariants(fr, st, ls, ord, "loop-entry", s.Pos())
 			x.havocTargets(fr, st, s.Body)
 			i := Fresh("range.i", SInt)
